@@ -1269,4 +1269,62 @@ def exFlatStruct : DataType :=
 
 example : validate exFlatStruct = [] ∧ exFlatStruct.pathsWF = true := by decide
 
+/-- **C16 (the derive as a whole, after parsing).** When the attribute parser accepts the input — yielding `input`, with
+    child paths as it builds them — whatever `derive` then does (report diagnostics, or expand), it can panic only at one
+    of the five listed findings. -/
+theorem C16_derive_only_findings (b : Back) (node : RawInput) (input : DataType) (hp : parseInput b node = some input)
+    (hwf : input.pathsWF = true) (s : String) (h : derive b node = .panic s) : s ∈ findingSites := by
+  unfold derive at h
+  unfold parseInput at hp
+  cases hb : node.body with
+  | union => simp [hb] at h
+  | struct data =>
+    simp only [hb] at h hp
+    cases hs : Struct.fromSyn b node data with
+    | error e => simp [hs] at hp
+    | ok st =>
+      simp only [hs, Option.some.injEq] at hp
+      subst hp
+      simp only [hs, Except.map] at h
+      cases hv : validate (.struct st) with
+      | cons m ms => simp [hv] at h
+      | nil =>
+        simp only [hv] at h
+        cases hd : dataTypeImpls (.struct st) with
+        | ok impls => simp [hd] at h
+        | error e =>
+          simp only [hd] at h
+          cases e with
+          | panic s' =>
+            simp only [ofPErr, Outcome.panic.injEq] at h
+            subst h
+            exact C16_validated_only_findings _ hv hwf _ hd
+          | lib => simp [ofPErr] at h
+          | o2o m => simp [ofPErr] at h
+          | unsupported w => simp [ofPErr] at h
+  | enum vs =>
+    simp only [hb] at h hp
+    cases hs : Enum.fromSyn b node vs with
+    | error e => simp [hs] at hp
+    | ok en =>
+      simp only [hs, Option.some.injEq] at hp
+      subst hp
+      simp only [hs, Except.map] at h
+      cases hv : validate (.enum en) with
+      | cons m ms => simp [hv] at h
+      | nil =>
+        simp only [hv] at h
+        cases hd : dataTypeImpls (.enum en) with
+        | ok impls => simp [hd] at h
+        | error e =>
+          simp only [hd] at h
+          cases e with
+          | panic s' =>
+            simp only [ofPErr, Outcome.panic.injEq] at h
+            subst h
+            exact C16_validated_only_findings _ hv hwf _ hd
+          | lib => simp [ofPErr] at h
+          | o2o m => simp [ofPErr] at h
+          | unsupported w => simp [ofPErr] at h
+
 end O2o
